@@ -1,85 +1,13 @@
-//! scratch probe for C07/C10 (not a registered check): prints the exported RoomNode of a small history
-use discret::verif_hooks::configuration::Configuration;
-use discret::verif_hooks::database::graph_database::GraphDatabaseService;
-use discret::verif_hooks::database::room_node::RoomNode;
+//! scratch probe for C07/C10 (not a registered check)
+use discret::verif_hooks::database::query_language::data_model_parser::DataModel;
+use discret::verif_hooks::database::query_language::query_parser::QueryParser;
+use discret::verif_hooks::database::query::PreparedQueries;
 use discret::verif_hooks::database::authorisation_service::RoomAuthorisations;
-use discret::verif_hooks::event_service::{EventService, Event};
-use discret::verif_hooks::security::{base64_encode, random32, Ed25519SigningKey, SigningKey};
-use discret::verif_hooks::date_utils::verif_clock;
-use discret::{Parameters, ParametersAdd};
-use std::path::PathBuf;
-
-fn dump(n: &RoomNode) {
-    let k = |v: &Vec<u8>| base64_encode(v)[0..6].to_string();
-    let id = |v: &[u8; 16]| base64_encode(v)[0..6].to_string();
-    println!("ROOM id={} cdate={} mdate={} ent={} json={:?} author={} last_modified={}", id(&n.node.id), n.node.cdate, n.node.mdate, n.node._entity, n.node._json, k(&n.node.verifying_key), n.last_modified);
-    for e in &n.admin_edges { println!("  admin_edge src={} se={} label={} dest={} cdate={} author={}", id(&e.src), e.src_entity, e.label, id(&e.dest), e.cdate, k(&e.verifying_key)); }
-    for u in &n.admin_nodes { println!("  admin_node id={} room={:?} cdate={} mdate={} ent={} json={:?} author={}", id(&u.node.id), u.node.room_id, u.node.cdate, u.node.mdate, u.node._entity, u.node._json, k(&u.node.verifying_key)); }
-    for e in &n.auth_edges { println!("  auth_edge src={} se={} label={} dest={} cdate={} author={}", id(&e.src), e.src_entity, e.label, id(&e.dest), e.cdate, k(&e.verifying_key)); }
-    for a in &n.auth_nodes {
-        println!("  AUTH id={} room={:?} cdate={} mdate={} ent={} json={:?} author={} lm={} need_update={}", id(&a.node.id), a.node.room_id, a.node.cdate, a.node.mdate, a.node._entity, a.node._json, k(&a.node.verifying_key), a.last_modified, a.need_update);
-        for e in &a.right_edges { println!("    right_edge src={} se={} label={} dest={} cdate={} author={}", id(&e.src), e.src_entity, e.label, id(&e.dest), e.cdate, k(&e.verifying_key)); }
-        for u in &a.right_nodes { println!("    right_node id={} cdate={} mdate={} ent={} json={:?} author={}", id(&u.node.id), u.node.cdate, u.node.mdate, u.node._entity, u.node._json, k(&u.node.verifying_key)); }
-        for e in &a.user_edges { println!("    user_edge src={} se={} label={} dest={} cdate={} author={}", id(&e.src), e.src_entity, e.label, id(&e.dest), e.cdate, k(&e.verifying_key)); }
-        for u in &a.user_nodes { println!("    user_node id={} cdate={} mdate={} ent={} json={:?} author={}", id(&u.node.id), u.node.cdate, u.node.mdate, u.node._entity, u.node._json, k(&u.node.verifying_key)); }
-        for e in &a.user_admin_edges { println!("    uadmin_edge src={} se={} label={} dest={} cdate={} author={}", id(&e.src), e.src_entity, e.label, id(&e.dest), e.cdate, k(&e.verifying_key)); }
-        for u in &a.user_admin_nodes { println!("    uadmin_node id={} cdate={} mdate={} ent={} json={:?} author={}", id(&u.node.id), u.node.cdate, u.node.mdate, u.node._entity, u.node._json, k(&u.node.verifying_key)); }
-    }
-}
-
-#[tokio::main(flavor = "multi_thread")]
-async fn main() {
-    let path: PathBuf = "/verif/work/C07/probe".into();
-    let _ = std::fs::remove_dir_all(&path);
-    std::fs::create_dir_all(&path).unwrap();
-    let model = "ns { Person{ name:String } }";
-    let secret = random32();
-    let ev = EventService::new();
-    let mut sub = ev.subcribe().await;
-    verif_clock::set(1_700_000_000_000);
-    let (app, vk, _) = GraphDatabaseService::start("probe", model, &secret, &random32(), path.clone(), &Configuration::default(), ev).await.unwrap();
-    let other = Ed25519SigningKey::create_from(&[3u8; 32]).export_verifying_key();
-    let mut p = Parameters::default();
-    p.add("user_id", base64_encode(&vk)).unwrap();
-    p.add("other", base64_encode(&other)).unwrap();
-    verif_clock::set(1_700_000_001_000);
-    let room = app.mutate_raw(r#"mutate { sys.Room{ admin:[{verif_key:$user_id}] authorisations:[{ name:"g" rights:[{entity:"ns.Person" mutate_self:false mutate_all:true}] users:[{verif_key:$other}] user_admin:[{verif_key:$user_id}] }] } }"#, Some(p)).await.unwrap();
-    let ri = &room.mutate_entities[0];
-    let rid = ri.node_to_mutate.id;
-    let room_id = base64_encode(&rid);
-    let auth_id = base64_encode(&ri.sub_nodes.get("authorisations").unwrap()[0].node_to_mutate.id);
-    println!("--- after creation");
-    dump(&app.get_room_node(rid).await.unwrap().unwrap());
-    verif_clock::set(1_700_000_002_000);
-    let mut p = Parameters::default();
-    p.add("room_id", room_id.clone()).unwrap();
-    p.add("auth_id", auth_id.clone()).unwrap();
-    p.add("other", base64_encode(&other)).unwrap();
-    app.mutate_raw(r#"mutate { sys.Room{ id:$room_id authorisations:[{ id:$auth_id users:[{verif_key:$other enabled:false}] }] } }"#, Some(p)).await.unwrap();
-    verif_clock::set(1_700_000_003_000);
-    let mut p = Parameters::default();
-    p.add("room_id", room_id.clone()).unwrap();
-    p.add("other", base64_encode(&other)).unwrap();
-    app.mutate_raw(r#"mutate { sys.Room{ id:$room_id admin:[{verif_key:$other}] authorisations:[{ name:"g2" }] } }"#, Some(p)).await.unwrap();
-    verif_clock::set(1_700_000_004_000);
-    let mut p = Parameters::default();
-    p.add("room_id", room_id.clone()).unwrap();
-    p.add("auth_id", auth_id.clone()).unwrap();
-    app.mutate_raw(r#"mutate { sys.Room{ id:$room_id authorisations:[{ id:$auth_id name:"renamed" rights:[{entity:"ns.Person" mutate_self:true mutate_all:false}] }] } }"#, Some(p)).await.unwrap();
-    println!("--- after updates");
-    let n = app.get_room_node(rid).await.unwrap().unwrap();
-    dump(&n);
-    println!("parse of export: {:?}", n.parse().map(|_| ()));
-    while let Ok(e) = sub.try_recv() {
-        if let Event::RoomModified(r) = e { println!("event RoomModified admins={} auths={}", r.admins.len(), r.authorisations.len()); }
-    }
-    let q = app.query(RoomAuthorisations::LOAD_QUERY, None).await.unwrap();
-    println!("LOAD_QUERY -> {}", q);
-    let mut ra = RoomAuthorisations { signing_key: Ed25519SigningKey::create_from(&[7u8; 32]), rooms: Default::default(), max_node_size: 2000 };
-    println!("load_json: {:?}", ra.load_json(&q).map(|_| ()));
-    drop(app);
-    tokio::time::sleep(std::time::Duration::from_millis(300)).await;
-    let r = GraphDatabaseService::start("probe", model, &secret, &random32(), path.clone(), &Configuration::default(), EventService::new()).await;
-    println!("restart: {:?}", r.as_ref().map(|_| ()).map_err(|e| e.to_string()));
-    let _ = std::fs::remove_dir_all(&path);
+fn main() {
+    let mut dm = DataModel::new();
+    dm.update_system(discret::verif_hooks::database::system_entities::SYSTEM_DATA_MODEL).unwrap();
+    dm.update("ns { E1{ name:String } }").unwrap();
+    let q = QueryParser::parse(RoomAuthorisations::LOAD_QUERY, &dm).unwrap();
+    let p = PreparedQueries::build(&q).unwrap();
+    println!("{}", p.sql_queries[0].sql_query);
 }
